@@ -263,7 +263,7 @@ def gen_cases(tier, seed):
         for L in specials + [1024 - st]:
             if L >= 1 and st + L <= 1024:
                 add("B", st, L, none)
-    for _ in range(150 if tier == "quick" else 6000):
+    for _ in range(300 if tier == "quick" else 20000):
         st = r.randrange(1024)
         add("B", st, r.randrange(1, 1025 - st), none, blocks=r.choice(["random", "pattern"]))
     # ---- fault enumeration: every single drop / dup / adjacent swap, request faults
@@ -284,7 +284,7 @@ def gen_cases(tier, seed):
         add("B", st, L, {"kind": "drop-seg", "idx": min(1, n - 1), "attempts": [1, 2]}, retries=3, varying=True)
         add("B", st, L, {"kind": "swap", "idx": 0, "attempts": [1]}, retries=3, varying=True) if n > 1 else None
     # ---- drawn multi-fault scripts, all three regimes for the atomicity clauses
-    nrand = 120 if tier == "quick" else 2500
+    nrand = 250 if tier == "quick" else 9000
     for regime in ("B", "J", "H"):
         for _ in range(nrand):
             st = r.choice([0, 0, 256, r.randrange(900)])
